@@ -111,4 +111,5 @@ func c10Extra(r *core.Run) {
 
 	// detection round 8: the runner the drain handler uses gives its slot back also when the drain function panics
 	c10Round8(r)
+	c10Round9(r, pkg)
 }
